@@ -273,6 +273,7 @@ func checkC01(w *World, r *Run) {
 	if c := c20Context(w, r); c != nil {
 		checkCacheMutators(w, r, c)
 	}
+	checkOversizePartNotCached(w, r)
 	checkVersionOrderRanksNull(w, r)
 	checkRangeOverlapTests(w, r)
 	checkTxFinalization(w, r)
